@@ -450,14 +450,19 @@ def explore_set(g, ops, depth, first, ctx):
         for idx in seqs:
             for mode in ("frame", "scalar"):
                 run_set(g, ops, idx, mode, ctx)
+                if len(idx) <= 2:
+                    # three charts, the one with the empty lists FIRST (rows of the set-level frame must stay paired with their charts)
+                    run_set(g, ops, idx, mode, ctx, arrangement="empty-first")
 
 
-def run_set(g, ops, idx, mode, ctx):
+def run_set(g, ops, idx, mode, ctx, arrangement="plain"):
     """Mapset stack: `ms.stack().p op= a`. mode 'frame' uses the DataFrame returned by the getter (+=, *=); '=' assigns a scalar."""
     ms = starts.make_set(g)
+    if arrangement == "empty-first":
+        ms.maps = [ms.maps[1], ms.maps[0], starts.make(g, "gaps")]
     tws = [twin_of(m) for m in ms.maps]
     cls = [classes_of(m) for m in ms.maps]
-    case = dict(kind="set", game=g, ops=[list(ops[i]) for i in idx], mode=mode)
+    case = dict(kind="set", game=g, ops=[list(ops[i]) for i in idx], mode=mode, arrangement=arrangement)
     ctx.depth(len(idx))
     for n, i in enumerate(idx):
         _, p, o, a = ops[i]
@@ -534,6 +539,6 @@ def replay(case, ctx):
         run_seq(case["game"], case["start"], ops, list(range(len(ops))), ctx, set(), reuse=case.get("reuse", False))
     elif case["kind"] == "set":
         ops = [tuple(o) for o in case["ops"]]
-        run_set(case["game"], ops, list(range(len(ops))), case["mode"], ctx)
+        run_set(case["game"], ops, list(range(len(ops))), case["mode"], ctx, arrangement=case.get("arrangement", "plain"))
     else:
         stale_probes(ctx)
